@@ -144,8 +144,9 @@ def run(ctx, case):
     nrej = 0
     queue = []
     history = []
-    o2 = None
+    o2 = prev = None
     with H.tmpdir() as d:
+        prev = hist.observe(subject, d)
         for k in range(case["n_ops"]):
             L = hist.live(subject)
             r = rng.random()
@@ -184,7 +185,19 @@ def run(ctx, case):
             o1 = hist.observe(subject, d)
             if s1 == "ok" or o2 is None:
                 o2 = hist.observe(twin, d)  # the twin only changes when it received the call
-            diff = hist.obs_diff(o2, o1)
+            if s1 != "ok" and prev is not None:
+                # a rejected call: the SAME object before and after, compared exactly (order included)
+                diff = hist.obs_diff(prev, o1)
+            else:
+                diff = []
+            # subject vs twin (two objects): compared modulo row / sibling order - which node index a new component
+            # receives after a del_comp() with several descendants is not a function of the call history (hist.canon)
+            tdiff = hist.obs_diff(hist.canon(o2), hist.canon(o1), rel=1e-9)
+            prev = o1
+            if s1 != "ok":
+                diff = diff or tdiff
+            else:
+                diff = tdiff
             if s1 != "ok":
                 last_rej = history[-1]
                 ok = not diff
@@ -196,7 +209,9 @@ def run(ctx, case):
                 if not ok:
                     break
             elif diff:
-                # an accepted call produced different observables on subject and twin: an earlier rejected call left a trace
+                # an accepted call produced different observables on subject and twin: an earlier rejected call left a
+                # trace.  (Compared modulo row / sibling order: which node index a new component receives after a
+                # del_comp() with several descendants is not a function of the call history - see hist.canon.)
                 ctx.check("rejected.state_unchanged", False,
                           {"after_accepted_call": op, "observables_differ": [x[0] for x in diff], "first_difference(twin, subject)": diff[:2],
                            "rejected_calls_so_far": [h for h in history if h["outcome"] != "accepted"][-5:], "start": start,
